@@ -14,7 +14,8 @@ RULE = ("one run = a generated class hierarchy (depth 1-3, overridden block name
         "reference-enabled most-derived blocks of that instance, and pin-probes at mutated points agree "
         "with the reference verdict (a point only a disabled/overridden block excludes must be "
         "accepted; a point an enabled block excludes must be rejected). Non-trivial = >=1 toggle "
-        "followed by >=1 probe on >=2 parties; distinct = (hierarchy shape, op 3-grams).")
+        "followed by >=1 probe on >=2 parties; distinct = (hierarchy shape, op 3-grams)."
+        " The container's block may carry the name of a block of the objects it holds; witness oracle for spurious failures.")
 REAL = ["pyvsc (all of src/vsc)", "PyBoolector"]
 STUB = ["user code (generated)", "stdout (sink)"]
 ASSUMPTIONS = ["block bodies are ranges / comparisons with same-signed literals, whose lowering is "
